@@ -3,8 +3,10 @@ C13 on statement TEXTS that no grammar family produces: every combination of a l
 from fragments of the operand grammar (lone prefixes, unbalanced brackets, doubled separators, dangling operators, over-long
 numbers, a non-ASCII letter ...), assembled inside a small valid program.  BOUNDED (7,320 concrete lines); the clauses are the
 property's: the assembler terminates, and what leaves Program.process is a diagnostic (ParseError / TranslationError), never an
-internal error.  Failure signatures name the exception class and the two innermost frames of the real code, so a known finding
-is tied to the code site that lets the error through, and the same class escaping through another site is a new violation.
+internal error.  Failure signatures name the exception class, the phase of Program.process in which it was raised (its outermost
+public method: stable under extraction of helpers) and the exact input (label index, operand index); the known findings list,
+per mnemonic and root cause, exactly the inputs that fail on the tree (tools/mktextknown.py -> known_text_inputs.json), so
+any other input that starts to fail is a new violation and a restructured implementation that fails on the same inputs is not.
 """
 from pyvc.asmh import assemble
 
@@ -34,9 +36,11 @@ class AsmText:
         for k, op in enumerate(OPERANDS):
             line = "%s %s %s\n" % (lb, mn, op)
             run = assemble(env, [" ORG $1000\n", "T NOP\n", line, " NOP\n"], want_listing=True, fs={})
-            sig = lambda what, k=k, run=run: (lambda: "text:%s:%s:%s@%s" % (mn.upper(), what, run.exc_class, run.exc_site)) if native else None
-            env.ensure("C13:terminates", run.status != "hang", ("C13",), sig("hang"))
-            env.ensure("C13:no-internal-error", run.status != "escape", ("C13",), sig("escape"))
+            li = LABELS.index(lb)
+            sig = lambda what, k=k, run=run: (lambda: "text:%s:%s:%s@%s:L%d:O%d" % (mn, what, run.exc_class, run.exc_phase, li, k)) if native else None
+            # (one clause per input, so that the native replay of a failure reports THAT input and not the first failing one)
+            env.ensure("C13:terminates#%d" % k, run.status != "hang", ("C13",), sig("hang"))
+            env.ensure("C13:no-internal-error#%d" % k, run.status != "escape", ("C13",), sig("escape"))
 
 
 LEMMAS = [AsmText()]
